@@ -47,7 +47,7 @@ CLAIMED = {
             "DESIGN.md §5 C16"),
     "C07": (ENGINE_A, "exploration",
             "seeded simulation of adaptive chains; acceptance histories of every kind produced by the environment (fault injection, ExactNormal on a standard normal, always-diverging densities); refinement of the reported step sizes against a reference dual-averaging / Adam recursion",
-            "The reference recursion (ten lines: clamped iterate, count^-k weighted average; Adam) is fed the observed per-draw acceptance statistics - plain before the late phase, symmetric in it, the late phase decided from the hook-H4 window counters - and must reproduce step_size_bar and step_size of every warmup draw to 1e-8 (within the jitter band when jitter is on), re-synchronising on the result of a step-size search; every step size is finite and positive and the iterate never exceeds max_step_size; a closed-loop batch checks the post-warmup acceptance against a wide band around the target. Every step-size search (the initial one in set_position and the re-run after the first transformation change) is audited at the trajectory tap: the one-step acceptances exp(E0 - E_j) of its trials drive a reference of the doubling/halving rule, which must predict the number of trials and the step size in force afterwards (the first step whose acceptance is on the other side of the target than all earlier ones; fallback to initial_step on a divergent trial).",
+            "The reference recursion (ten lines: clamped iterate, count^-k weighted average; Adam) is fed the observed per-draw acceptance statistics - plain before the late phase, symmetric in it, the late phase decided from the hook-H4 window counters - and must reproduce step_size_bar and step_size of every warmup draw to 1e-8 (within the jitter band when jitter is on), re-synchronising on the result of a step-size search; every step size is finite and positive and the iterate never exceeds max_step_size; a closed-loop batch checks the post-warmup acceptance against a wide band around the target. Every step-size search (the initial one in set_position and the re-run after the first transformation change) is audited at the trajectory tap, which reports every one-step trial with its step size and energy: the step size in force afterwards must be a tried step whose acceptance exp(E0 - E) lies on the other side of the target than another trial at half, double or the same step (a divergent trial counts as 0), or lie beyond the search range, or be the documented fallback (initial_step after a divergent trial); tried steps are the initial step times powers of two.",
             "Monotonicity is a property of the reference recursion (argued in DESIGN.md); searches with a failed trial evaluation or an acceptance within 1e-12 of the target are counted, not judged. Runs whose first update is clamped cannot be initialised and are skipped (counted).",
             "DESIGN.md §5 C07"),
     "C08": (ENGINE_A, "exploration",
